@@ -52,8 +52,11 @@ CLAIMED = {
             "text": "Solver-decided wildcard semantics: Wildcard::<false/true>::new + is_match agree with the documented "
                     "semantics for every pattern of 1-2 (thorough 3) bytes over {a,A,*,?,\\}, every value up to 2 (3) bytes "
                     "and every star limit; validation of every 4-byte pattern (** anywhere, escapes, star limit); the compile "
-                    "arms fold case only for the non-strict flavour; nested parsers keep the configured limits. Everything "
-                    "about `matches` (regex) is NOT covered."},
+                    "arms fold case only for the non-strict flavour; nested parsers keep the configured limits; for `matches` only the wiring: the arm and the "
+                    "engine's Regex wrapper return exactly the regex engine's answer on exactly the value's bytes "
+                    "(unanchored, whole value, asked once; absent value false), with the engine itself replaced by an "
+                    "oracle. The regex engine, its byte-oriented configuration, size limits and the quoted-pattern "
+                    "scanner are NOT covered."},
     "C13": {"design_ref": "5/C13", "technique": T,
             "text": "Solver-decided counter kernel: with_increased_nesting for every (depth, limit) in u16 x u16 keeps every setting, d-fold nesting accepted iff d <= limit for every limit (d <= 9; thorough attempt: 300 steps across 255/256), default 128, setters/getters. Whether each construct's call site increments is NOT covered."},
     "C15": {"design_ref": "5/C15", "technique": T,
